@@ -66,6 +66,9 @@ func main() {
 		if err == nil {
 			err = writeParamBaseline(P, filepath.Join(*verif, "checker", "baseline_params.txt"))
 		}
+		if err == nil {
+			err = writeSwallowBaseline(P, filepath.Join(*verif, "checker", "baseline_swallow.txt"))
+		}
 		if err != nil {
 			fmt.Fprintln(os.Stderr, err)
 			os.Exit(2)
